@@ -73,7 +73,21 @@ class History:
         result = self.redo_list[-len(dependencies) :]
         if drop:
             del self.redo_list[-len(dependencies) :]
+            self._forget_redos_based_on(result)
         return result
+
+    def _forget_redos_based_on(self, dropped):
+        """Remove the changes that can no longer be redone
+
+        A change in the redo list that was made on top of a dropped
+        change has lost its basis: redoing it would fail half-way or
+        re-create a state that never existed.
+        """
+        gone = list(dropped)
+        for change_ in reversed(list(self.redo_list)):
+            if len(_FindChangeDependencies([change_] + gone)()) > 1:
+                self.redo_list.remove(change_)
+                gone.insert(0, change_)
 
     def redo(self, change=None, task_handle=taskhandle.DEFAULT_TASK_HANDLE):
         """Redo undone changes from the history
